@@ -615,6 +615,23 @@ func genPlan(r *hutil.Rng, stream string, seed uint64, idx int) *Plan {
 		for s := 0; s < ns && budget > 0; s++ {
 			t := g.tables[r.Intn(len(g.tables))]
 			st := g.genStmt(t, own, br.Explicit)
+			if stream == "c10fault" && s == 0 && g.nrows[t.Name] > 0 && idx%3 != 0 {
+				// the fault stream cycles through the undo executors: every third plan free, else a DELETE of one / of many rows
+				// (its undo re-inserts row by row) or an UPDATE of an existing row
+				c := &Cond{Kind: "pk", Key: keyOf(t, 1)}
+				if len(t.Keys) == 1 && g.nrows[t.Name] > 1 && r.Chance(1, 2) {
+					c = &Cond{Kind: "pkin"}
+					for k := 1; k <= g.nrows[t.Name] && k <= 3; k++ {
+						c.Keys = append(c.Keys, keyOf(t, k))
+					}
+				}
+				if idx%3 == 1 {
+					w, wa := whereSQL(t, c, false)
+					st = Stmt{Kind: "delete", Table: t.Name, Where: c, SQL: "DELETE FROM " + t.Name + " WHERE " + w, Args: wa}
+				} else {
+					st = g.fixedUpdate(t, c)
+				}
+			}
 			if stream == "c10marker" && s == 0 && (st.Kind == "update" || st.Kind == "delete") {
 				// make sure the marker case has something to flush: hit an existing row when there is one
 				if g.nrows[t.Name] > 0 {
